@@ -213,6 +213,24 @@ func init() {
 		"strconv.Atoi":        strconvParseInt,
 		"strconv.Quote":       strconvQuote,
 		// time
+		"internal/godebug.New": func(fr *frame, a []value) value {
+			t := fr.fn.Signature.Results().At(0).Type().(*types.Pointer).Elem()
+			v := zero(t)
+			return &v
+		},
+		"(*internal/godebug.Setting).Value":         func(fr *frame, a []value) value { return "" },
+		"(*internal/godebug.Setting).IncNonDefault": func(fr *frame, a []value) value { return nil },
+		"(*internal/godebug.Setting).Name":          func(fr *frame, a []value) value { return "" },
+		"time.runtimeNano": func(fr *frame, a []value) value { fr.i.clock++; return int64(fr.i.clock) },
+		"time.now": func(fr *frame, a []value) value {
+			fr.i.clock++
+			return tuple{int64(1700000000 + fr.i.clock), int32(0), int64(fr.i.clock)}
+		},
+		"time.runtimeNow": func(fr *frame, a []value) value {
+			fr.i.clock++
+			return tuple{int64(1700000000 + fr.i.clock), int32(0), int64(fr.i.clock)}
+		},
+		"time.initLocal": func(fr *frame, a []value) value { return nil },
 		"time.Now":   timeNow,
 		"time.Since": func(fr *frame, a []value) value { return int64(0) },
 		"(time.Duration).String": func(fr *frame, a []value) value {
